@@ -31,6 +31,7 @@ func (s *Server) Listen(req *signaling.ListenRequest, strm signaling.SRPCSignali
 		tkr.broadcast()
 	}
 	listenNonce := tkr.listenNonce
+	tkr.listening = true
 	s.mtx.Unlock()
 
 	// Cleanup when we exit
